@@ -179,6 +179,14 @@ def splice(sig, body, spec, loops, ghosts, ret, make_pub, rules):
         if len(found) != max(o for o, _ in loops) and any(o > len(found) for o, _ in loops):
             raise Undecided("loop count changed")
     for (where, needle, nth, text) in ghosts:
+        if where == "afterloop":
+            found = L.find_loops(body, mask)
+            o = int(needle)
+            if o < 1 or o > len(found):
+                raise Undecided("lost anchor: loop #%d not found for afterloop ghost" % o)
+            e = L.match_close(body, mask, found[o - 1][1])
+            inserts.append((e + 1, "\n" + text.rstrip("\n")))
+            continue
         if where == "at":
             if needle == "end":
                 # before a trailing expression there is no safe spot; `end` means: after the last statement (body must end with `;` or `}`)
@@ -251,7 +259,7 @@ def render(vu):
                 elif l2.startswith("//@ghost "):
                     flush(); buf = []; cur = "ghost"
                     g = dict(tok.split("=", 1) for tok in shlex.split(l2)[1:])
-                    where = "after" if "after" in g else ("before" if "before" in g else "at")
+                    where = "after" if "after" in g else ("before" if "before" in g else ("afterloop" if "afterloop" in g else "at"))
                     cur_meta = (where, g[where], int(g.get("nth", "1")))
                 else:
                     buf.append(l2)
